@@ -114,6 +114,25 @@ class AvroWriter:
             if not any(avro_accepts(it, t, v) for t in ts):
                 self._tear(k)
                 raise PyRaise(ValueError(f"{it.type_name(v)} value of field {f['name']!r} is not an example of the schema {ts!r}"))
+        # the ENCODER runs after the validator and writes field by field into the block buffer: text is UTF-8, a lone surrogate cannot be encoded - the error comes
+        # when the fields in front of it are already in the buffer (assumed fastavro contract, sampled by C19.cross)
+        for k, f in enumerate(self.schema.get("fields", [])):
+            v = it.unbase(rec.get(f["name"]))
+            for item in (v if isinstance(v, (list, tuple)) else [v]):
+                item = it.unbase(item)
+                if isinstance(item, str):
+                    try:
+                        item.encode("utf-8")
+                    except UnicodeEncodeError as e:
+                        if k > 0 and self.torn_at is None:
+                            self.torn_at = len(self.buffer)
+                        raise PyRaise(e)
+                elif isinstance(item, SStr):
+                    no_sur = z3.Star(z3.Union(z3.Range(chr(0), chr(0xD7FF)), z3.Range(chr(0xE000), chr(0x2FFFF))))
+                    if not it.branch(z3.InRe(item.t, no_sur)):
+                        if k > 0 and self.torn_at is None:
+                            self.torn_at = len(self.buffer)
+                        raise PyRaise(UnicodeEncodeError("utf-8", "<symbolic>", 0, 1, "surrogates not allowed"))
         import datetime as _dtm
 
         stored = dict(rec)
